@@ -107,7 +107,10 @@ func componentFor(doc any, md protoreflect.MessageDescriptor) (string, bool) {
 func C18(c *Ctx, r *report.Run) error {
 	r.Rule = "every spec with services of the universe (core, contexts, multi-file, same-named nested types, recursive types) x format {default, yaml, yml, json}: the emitted documents are decoded (YAML by yaml/v4 node + core-schema tags, JSON by encoding/json) and checked structurally against OAS 3.1 (required members, every $ref resolves, path template variables <-> required path parameters one-to-one, (name,in) unique, operationId unique, every message reachable from the RPCs has a component schema, one document per service); every component and parameter schema passes the Draft 2020-12 metaschema; YAML and JSON renderings are equal as JSON values; distinct = (unit, service, check, outcome)"
 	var specs []*spec.Spec
-	for _, s := range append(append(buildUniverse(c), univ18()...), univ.PairSpecs(c.Thorough)...) {
+	// F-rules too: documents full of numeric and string literals (bounds beyond 2^53 and 2^63, look-alike strings, fractions)
+	// are where the YAML and JSON renderings of one service can drift apart
+	ruleSpecs, _ := univ.RuleSpecs(c.Thorough)
+	for _, s := range append(append(append(buildUniverse(c), univ18()...), univ.PairSpecs(c.Thorough)...), ruleSpecs...) {
 		if !hasTag(s, "valid") {
 			continue
 		}
